@@ -566,7 +566,6 @@ fn bounds(tier: Tier) -> Vec<(Cfg11, usize)> {
             (c(Fam::Map, 1, true, false, 3), 4),
             (c(Fam::Nest, 0, true, false, 2), 3),
             (cr(Fam::Nest, true, 2, 'a'), 4),
-            (cr(Fam::Nest, false, 1, 'a'), 4),
             (c(Fam::Xml, 0, true, false, 2), 3),
             (c(Fam::Uni, 0, false, true, 2), 3),
         ],
@@ -579,6 +578,8 @@ fn bounds(tier: Tier) -> Vec<(Cfg11, usize)> {
             (c(Fam::Arr, 0, true, false, 3), 5),
             (c(Fam::Map, 1, true, false, 3), 5),
             (c(Fam::Nest, 0, true, false, 3), 4),
+            (cr(Fam::Nest, true, 2, 'a'), 4),
+            (cr(Fam::Nest, false, 1, 'a'), 4),
             (c(Fam::Xml, 0, true, false, 3), 4),
             (c(Fam::Uni, 0, false, true, 3), 4),
             (c(Fam::Uni, 0, true, false, 2), 3),
